@@ -230,6 +230,23 @@ func TestC19(t *testing.T) {
 			rateCases = append(rateCases, c)
 		}
 	}
+	// N is a decimal number: zero-padded spellings mean the same number (no octal), other bases and digit
+	// separators are not numbers of the documented format
+	for _, z := range []struct {
+		text string
+		n    int
+	}{{"010", 10}, {"050/s", 50}, {"008", 8}, {"00020000/1s", 20000}, {"007/ms", 7}, {"0100/2s", 100}} {
+		per := time.Second
+		if i := strings.IndexByte(z.text, '/'); i >= 0 {
+			switch z.text[i+1:] {
+			case "ms":
+				per = time.Millisecond
+			case "2s":
+				per = 2 * time.Second
+			}
+		}
+		rateCases = append(rateCases, c19RateCase{text: z.text, freq: z.n, per: per, form: "zero-padded-N"})
+	}
 	rateValue := func(c c19RateCase, full bool) {
 		R.Eval(1)
 		if c.freq != 50 || c.per != time.Second {
@@ -342,7 +359,7 @@ func TestC19(t *testing.T) {
 	}
 
 	// malformed values must be rejected (directly and by the flag set)
-	for _, v := range []string{"", "x", "1.5", "/s", "5/", "1/1d", "1/2/3", "s"} {
+	for _, v := range []string{"", "x", "1.5", "/s", "5/", "1/1d", "1/2/3", "s", "0x10", "0b101/s", "0o17", "1_0/s", "1e3"} {
 		R.Eval(1)
 		R.Distinct("rate-malformed\x00" + v)
 		f := c19DefaultRate()
